@@ -309,6 +309,27 @@ func Run(rep *report.Report, tier string) {
 		}
 	}
 	lists = append(lists, []*client.OpResult{nil}, []*client.OpResult{nil, dom[0]}, []*client.OpResult{dom[0], nil})
+	// what a server that acknowledges out of order produces: every permutation of the acknowledgements of four
+	// operations with consecutive ids (a helper that assumes sorted / dense lists shows here)
+	var acks []*client.OpResult
+	for id := uint64(1); id <= 4; id++ {
+		acks = append(acks, &client.OpResult{OperationID: id, ProgrammingResult: spb.AFTResult_RIB_PROGRAMMED, Details: &client.OpDetailsResults{Type: constants.Add, NextHopIndex: 10 + id}})
+	}
+	var permLists [][]*client.OpResult
+	var perm func(cur []*client.OpResult, used int)
+	perm = func(cur []*client.OpResult, used int) {
+		if len(cur) == len(acks) {
+			permLists = append(permLists, append([]*client.OpResult{}, cur...))
+			return
+		}
+		for i, a := range acks {
+			if used&(1<<i) == 0 {
+				perm(append(cur, a), used|1<<i)
+			}
+		}
+	}
+	perm(nil, 0)
+	lists = append(lists, permLists...)
 	// wants: the alphabet, plus variants without Details
 	var wants []*client.OpResult
 	for _, d := range dom {
@@ -319,6 +340,7 @@ func Run(rep *report.Report, tier string) {
 			wants = append(wants, &nd)
 		}
 	}
+	wants = append(wants, acks...)
 	allOpts := []ropts{{false, false}, {true, false}, {false, true}, {true, true}}
 	idx := make([]int, len(lists))
 	for i := range idx {
@@ -372,6 +394,9 @@ func Run(rep *report.Report, tier string) {
 				clists = append(clists, l)
 			}
 		}
+	}
+	if len(clists) != len(lists) {
+		clists = append(clists, permLists...)
 	}
 	cidx := make([]int, len(clists))
 	for i := range cidx {
